@@ -53,5 +53,13 @@ def run(ctx, sub, scenario, seed, args, timeout=1500):
     import shutil
     shutil.rmtree(d, ignore_errors=True)
     if rc != 0 or summary is None:
-        raise RuntimeError("runprop %s failed (rc %d): %s" % (sub, rc, (se or so)[-1500:]))
+        err = ""
+        for o in recs:
+            if "error" in o:
+                err = str(o["error"])
+        import vlib
+        e = vlib.TieBroken("the %s driver could not run on this tree (rc %d): %s" % (sub, rc, err or (se or so)[-800:]), "harness.runprop." + sub)
+        e.driver_error = err
+        e.scenario = scenario
+        raise e
     return recs, summary
